@@ -152,6 +152,9 @@ Step ==
        [] t.ev = "recall" ->       \* C07 clause 2, a measurement: mean recall@k over the queries must exceed 0.8
             /\ UNCHANGED <<store, cfg, insOnly>>
             /\ viol' = viol \cup (IF 10 * t.hits > 8 * t.queries * t.k THEN {} ELSE {<<l, "RecallFloor">>})
+       [] t.ev = "near" ->         \* C02 "updating replaces the vector", for a vector one bit away from the stored one
+            /\ UNCHANGED <<store, cfg, insOnly>>
+            /\ viol' = viol \cup (IF t.err = "" /\ t.want = t.got THEN {} ELSE {<<l, "Map">>})
        [] t.ev \in {"loading", "damaged"} ->   \* marker written before each stream load / a load of truncated bytes:
             UNCHANGED <<store, cfg, insOnly, viol>>  \* recorded by the harness, not judged (C08 is about complete output)
        [] t.ev = "stream" ->
